@@ -75,6 +75,16 @@ def gen(tier):
     for mp, ml, maxp, ps in ((4, 1.0, 8, [4]), (2, 1.0, 8, [2, 2]), (2, 0.5, 4, [1, 1, 1])):
         evs = [['offer', j, 0, p] for j, p in enumerate(ps)] + [['done', j, 'nil'] for j in range(len(ps))]
         cases.append({'id': len(cases) + 1, 'mode': 'live', 'reqs': [], 'machs': [], 'machprocs': mp, 'maxp': maxp, 'maxload': ml, 'events': evs, 'probation_ms': 150, 'bootkills': []})
+    # (3) a real session: the executor's own Offer/Done calls for tasks with Procs pragmas below, at and above the
+    # machine's task capacity, recorded through the manager's hooks
+    for k in range(4 if tier == 'quick' else 40):
+        mp = rng.choice([2, 2, 4])
+        procs = [rng.choice([1, 1, 2, mp, mp + 1, mp + 2, 2 * mp]) for _ in range(rng.choice([3, 5, 6]))]
+        if k == 0:
+            procs = [4, 1, 1, 1, 1]
+            mp = 2
+        cases.append({'id': len(cases) + 1, 'mode': 'e2e', 'reqs': [], 'machs': [], 'machprocs': mp, 'maxp': rng.choice([mp, 2 * mp]), 'maxload': 1.0,
+                      'events': [], 'probation_ms': 150, 'bootkills': [], 'e2e': procs})
     return cases
 
 
@@ -124,10 +134,14 @@ def run(tier, replay=None):
         chk.cov['traces_validated_against_impl'] = len(cases)
         chk.cov['placement_decisions'] = len(precs)
         chk.cov['live_sessions'] = len(lrecs)
+        chk.cov['real_session_runs'] = sum(1 for c in cases if c['mode'] == 'e2e')
+        for rr in lrecs:
+            if rr.get('runerr'):
+                raise Inconclusive('the real-session run of case %s failed: %s' % (rr['id'], rr['runerr'][:300]))
         chk.cov['live_events'] = sum(len(rr['events']) for rr in lrecs)
         chk.cov['grants'] = sum(1 for rr in lrecs for e in rr['events'] if e['ev'] == 'MgrGrant')
         for c in cases:
-            chk.case({k: c[k] for k in c if k != 'id'}, nontrivial=c['mode'] == 'live' or len(c['reqs']) + len(c['machs']) >= 3)
+            chk.case({k: c[k] for k in c if k != 'id'}, nontrivial=c['mode'] in ('live', 'e2e') or len(c['reqs']) + len(c['machs']) >= 3)
         chk.cov['rule'] = 'placement: queues of 1-3 requests (priority 0/1, procs 1-3) x 1-3 machines (max 1-3, load 0..max), sampled in quick / exhaustive up to 60000 in thorough; live: 6-14 random events over machprocs 2/4, max-load 0.5-1.0, maxp 1-5, plus dedicated probation/stop and exact-multiple-demand sessions'
         if lrecs:
             chk.sample({'live_case': byid[lrecs[0]['id']]['events'], 'events': lrecs[0]['events'][:8]})
